@@ -157,6 +157,8 @@ enum FormatDirective {
 #[derive(Debug, PartialEq, Eq)]
 enum FormatComponent {
     Literal(String),
+    /// An octal escape from \200 on: one byte, not a character.
+    Byte(u8),
     Flush,
     Directive {
         directive: FormatDirective,
@@ -206,11 +208,15 @@ impl FormatStringParser<'_> {
                 u32::from_str_radix(octal, OCTAL_RADIX).map_err(std::convert::Into::into)
             }) {
                 // safe to unwrap: .peek() already succeeded above.
-                let octal = self.advance_by(OCTAL_LEN).unwrap();
-                return match char::from_u32(code) {
-                    Some(c) => Ok(FormatComponent::Literal(c.to_string())),
-                    None => Err(format!("Invalid character value: \\{octal}").into()),
-                };
+                self.advance_by(OCTAL_LEN).unwrap();
+                // \NNN is the byte with that value (of three octal digits the low
+                // eight bits count), whatever character encoding is in use.
+                let byte = (code & 0xff) as u8;
+                return Ok(if byte.is_ascii() {
+                    FormatComponent::Literal(char::from(byte).to_string())
+                } else {
+                    FormatComponent::Byte(byte)
+                });
             }
         }
 
@@ -680,6 +686,7 @@ impl Printf {
         for component in &self.format.components {
             match component {
                 FormatComponent::Literal(literal) => write!(out, "{literal}")?,
+                FormatComponent::Byte(byte) => out.write_all(&[*byte])?,
                 // \c: flush, and nothing more is printed for this file.
                 FormatComponent::Flush => break,
                 FormatComponent::Directive {
